@@ -78,6 +78,9 @@ type kdTree struct {
 	knn      func(int, V) []V
 	sphere   func(V, float64) bool
 	slice    func() []V
+	// knnTable issues KNN(ks[i], ps[i]) one after the other, KEEPING the returned slices, and reports every
+	// answer twice: as it was when its call returned, and as the retained slice reads after the last call.
+	knnTable func(ks []int, ps []V) (atReturn, atEnd [][]V)
 }
 
 func newKD(dim int, pts []V) (kdTree, *kdNode) {
@@ -99,7 +102,18 @@ func newKD(dim int, pts []V) (kdTree, *kdNode) {
 			func(p V) V { return v3(t.NearestNeighbor(c3(p))) },
 			func(k int, p V) []V { return conv(t.KNN(k, c3(p))) },
 			func(p V, r float64) bool { return t.SphereCollision(c3(p), r) },
-			func() []V { return conv(t.Slice()) }}, kdOf3(t)
+			func() []V { return conv(t.Slice()) },
+			func(ks []int, ps []V) (atReturn, atEnd [][]V) {
+				kept := make([][]model3d.Coord3D, len(ks))
+				for i, k := range ks {
+					kept[i] = t.KNN(k, c3(ps[i]))
+					atReturn = append(atReturn, conv(kept[i]))
+				}
+				for _, r := range kept {
+					atEnd = append(atEnd, conv(r))
+				}
+				return
+			}}, kdOf3(t)
 	}
 	ps := make([]model2d.Coord, len(pts))
 	for i, p := range pts {
@@ -118,7 +132,18 @@ func newKD(dim int, pts []V) (kdTree, *kdNode) {
 		func(p V) V { return v2(t.NearestNeighbor(c2(p))) },
 		func(k int, p V) []V { return conv(t.KNN(k, c2(p))) },
 		func(p V, r float64) bool { return t.SphereCollision(c2(p), r) },
-		func() []V { return conv(t.Slice()) }}, kdOf2(t)
+		func() []V { return conv(t.Slice()) },
+		func(ks []int, ps []V) (atReturn, atEnd [][]V) {
+			kept := make([][]model2d.Coord, len(ks))
+			for i, k := range ks {
+				kept[i] = t.KNN(k, c2(ps[i]))
+				atReturn = append(atReturn, conv(kept[i]))
+			}
+			for _, r := range kept {
+				atEnd = append(atEnd, conv(r))
+			}
+			return
+		}}, kdOf2(t)
 }
 
 var kdSizes = []int{0, 1, 2, 3, 3, 4, 4, 5, 5, 7, 7, 8, 8, 16, 16, 16, 33, 33, 33, 100, 200}
@@ -369,6 +394,75 @@ func (g *G) kdCase(dim int) int {
 				w[i] = hlib.RatStr(sqDist(dim, p, r)) // values, not identities (ties)
 			}
 			return strings.Join(w, " ")
+		}))
+	}
+
+	// knntab: a table of k-nearest answers (`nbrs[i] = tree.KNN(k, p[i])`): all queries are issued first and
+	// the answers the caller holds are read afterwards.  An answer is a value — it must still be the brute-force
+	// answer of ITS query after any number of later queries on the tree.
+	if g.p(0.8) {
+		m := 2 + g.Rng.Intn(5)
+		k0 := g.pickI([]int{1, 1, 2, 3, 4, 1 + g.Rng.Intn(n+1), n, n + 2})
+		ks, ps := make([]int, m), make([]V, m)
+		op := (&toks{}).s("c08", kind, "knntab").n(m)
+		for i := range ks {
+			ks[i] = k0
+			switch g.Rng.Intn(6) {
+			case 0:
+				ks[i] = 1 + g.Rng.Intn(n+2)
+			case 1:
+				ks[i] = g.Rng.Intn(k0 + 1) // smaller, sometimes 0
+			}
+			ps[i] = queryPoint()
+			if n > 0 && g.p(0.5) { // the k-NN graph of the cloud itself
+				ps[i] = pts[g.Rng.Intn(n)]
+			}
+			op.n(ks[i]).v(dim, ps[i])
+		}
+		emit(op, hlib.Guard(func() string {
+			atReturn, atEnd := tree.knnTable(ks, ps)
+			w := make([]string, m)
+			for i := range ks {
+				all := make([]float64, n)
+				for j, q := range pts {
+					all[j] = sqDist(dim, ps[i], q)
+				}
+				sort.Float64s(all)
+				want := all
+				if ks[i] < n {
+					want = all[:ks[i]]
+				}
+				for pass, rs := range [][]V{atReturn[i], atEnd[i]} {
+					okRes := len(rs) == len(want)
+					used := map[V]int{}
+					for j, r := range rs {
+						used[r]++
+						okRes = okRes && j < len(want) && sqDist(dim, ps[i], r) == want[j] && used[r] <= member[r]
+					}
+					if !okRes {
+						when := "when its call returned"
+						if pass == 1 {
+							when = "when read after the later queries of the table"
+							if fmt.Sprint(atReturn[i]) != fmt.Sprint(atEnd[i]) {
+								when += " (it was " + fmt.Sprint(atReturn[i]) + " when its call returned)"
+							}
+						}
+						g.PropFail("prop:c08 kd-knn-table-differs-from-scan",
+							fmt.Sprintf("%s %s => entry %d is %v %s", op.String(), ts, i, rs, when))
+						break
+					}
+				}
+				ds := make([]string, len(atEnd[i]))
+				for j, r := range atEnd[i] {
+					ds[j] = hlib.RatStr(sqDist(dim, ps[i], r)) // values, not identities (ties)
+				}
+				w[i] = strings.Join(ds, " ")
+				if len(ds) == 0 {
+					w[i] = "-"
+				}
+			}
+			g.Stat(kind+" knn tables(answers read after later queries)", 1)
+			return strings.Join(w, " | ")
 		}))
 	}
 
